@@ -3,6 +3,7 @@
 From Coq Require Import ZArith List Bool.
 From V Require Import Scan.ScanModel Run.RunLoop Match.Adjudicate Match.AdjProofs Match.Ctl Match.CtlProofs Match.Validity
   Match.Errors Match.ErrorsProofs Mgr.Aggregate.
+From V Require Scan.PySem Match.ErrEv Match.ErrSrc Match.ErrSrcEq.
 Import ListNotations.
 Open Scope Z_scope.
 
@@ -58,6 +59,17 @@ Proof.
   destruct (flag (v_raise v) (p_raise p)); destruct H as [H|H]; inversion H; reflexivity.
 Qed.
 Print Assumptions C04_error_fail.
+
+(** ... and so does the source: the effects ErrorHandler._handle_if performs (translated from csvpath/util/error.py, Match/ErrSrc.v)
+    leave the verdict False exactly when 'fail' is in force *)
+Theorem C04_error_fail_source : forall l v s line s',
+  (ErrSrcEq.apply_evs (ErrSrc.handle_if_src ErrSrcEq.obj ErrSrcEq.obj (PySem.PList l) (ErrSrcEq.ovv (v_raise v)) (ErrSrcEq.ovv (v_print v))
+     (ErrSrcEq.ovv (v_stop v)) (ErrSrcEq.ovv (v_fail v))) s line = Done s' \/
+   ErrSrcEq.apply_evs (ErrSrc.handle_if_src ErrSrcEq.obj ErrSrcEq.obj (PySem.PList l) (ErrSrcEq.ovv (v_raise v)) (ErrSrcEq.ovv (v_print v))
+     (ErrSrcEq.ovv (v_stop v)) (ErrSrcEq.ovv (v_fail v))) s line = Raised s') ->
+  h_valid s' = h_valid s && negb (flag (v_fail v) (existsb (Z.eqb 3) l)).
+Proof. intros l v s line s'. rewrite ErrSrcEq.handle_if_src_eq. apply (C04_error_fail (ErrSrcEq.pol_of l)). Qed.
+Print Assumptions C04_error_fail_source.
 
 (** aggregation: for members that read at least one record, ResultsManager.is_valid and the run
     manifest's all_valid are both the conjunction of the members' verdicts (partial: see D12) *)
